@@ -1,4 +1,6 @@
 import QtVerif.Proofs.StoreMongoX
+import QtVerif.Proofs.StoreStrong
+import QtVerif.Proofs.StoreFileWF
 /-!
 C06 — Every persistence driver behaves like the reference record store.
 
@@ -8,13 +10,23 @@ Property theorems only; the model (`Ref` = the SPEC, `Json`, `Redis`, `Api`, the
 All theorems quantify over every operation sequence, every collection name, every record / filter / sort / limit
 / projection and every JSON value (no bound on anything). The naming of auto-generated ids is left to the driver:
 the reference store is run with the names the driver chose and only demands that they are not in use
-(`Err.notFresh` never occurs). `Agree` compares results up to the first operation that the reference store
-rejects as outside the contract (unorderable operands, unknown operator, an `id` in an update part, …).
+(`Err.notFresh` never occurs).
+
+Run-level agreement comes in two strengths. `AgreeStrong` / `AgreeStrongBy` (the `…_strong` theorems) demand the
+same answer for every operation — the in-contract errors `Err.dup` and `Err.badId` of insert included: the driver
+must raise the same error, nothing changes, the comparison goes on — except where the reference store REJECTS the
+operation as outside the contract (`Res.outside`: `Err.typeErr` = filter outside the filter language / unorderable
+operands on some record / sort keys missing or unorderable, `Err.idInPart` = an "id" in an update part). The driver's
+answer to a rejected operation is unconstrained; after a rejected query the comparison goes on (no store changes),
+a rejected update / remove is the only point where it stops (the drivers apply such operations partially, or do not
+raise at all on the id fast path — a modelled difference). The older `Agree` / `AgreeBy` stop at the first
+reference error of any kind; the theorems stated with them are kept as corollaries.
 
 The Mongo driver is modelled as far as `drivers/persist/mongo.py` itself goes (identifier mapping, filter / sort /
 projection translation, record ↔ document, the update / replace / remove / insert shapes) and proved to refine the
-reference store *modulo a declarative SPEC of the document engine* (`Mongo.eFind` …), which is an assumption about
-MongoDB validated only through mongomock by the correspondence check.
+reference store PER OPERATION (PARTIAL: no run-level theorem, see `mongoRefinesRefFull`) *modulo a declarative SPEC
+of the document engine* (`Mongo.eFind` …), which is an assumption about MongoDB validated only through mongomock by
+the correspondence check.
 -/
 namespace QtVerif.Store.C06
 open QtVerif.Store
@@ -106,12 +118,33 @@ theorem ids_unique (hist : List (Op × Str)) (coll : Str) :
 
 /-! ## The JSON driver -/
 
-/-- **The JSON driver refines the reference store** (repaired `update`): for every sequence of insert / update /
-replace / remove / query operations, starting from empty stores, every id the driver generates is free in the
-reference store, and every result (ids, counts, flags, record lists in order) equals the reference store's. -/
+/-- **The JSON driver refines the reference store, strong form** (repaired `update`): for every sequence of
+insert / update / replace / remove / query operations, starting from empty stores, every id the driver generates is
+free in the reference store, and every result (ids, counts, flags, record lists in order, and the errors
+`DuplicateRecordId` / bad id of insert) equals the reference store's; the comparison runs through the whole history
+and stops only at an update / remove that the reference store rejects as outside the contract (`AgreeStrong`,
+`Res.outside`). -/
+theorem json_refines_ref_strong (fx : Fix) (hfx : fx.jsonUpdFilt = true) (ft : FloatText) (ops : List Op)
+    (hops : ∀ op ∈ ops, op ≠ .reload) : AgreeStrong ops (runWith (Json.step fx ft) [] [] ops) :=
+  json_run_agrees_strong fx hfx ft ops [] [] RelJ.init hops
+
+/-- What the strong form adds, on the reviewer's example: in a history insert; insert; query where the reference
+store refuses the second insert as a duplicate and answers the query, strong agreement forces the driver to refuse
+the second insert with the same error AND to give the reference store's answer to the query (the weak `Agree` says
+nothing about either). -/
+theorem agreeStrong_continues_after_contract_error (norm : Res → Res) (o1 o2 o3 : Op) (j1 j2 j3 r1 r3 : Res)
+    (h1 : r1.outside = false) (h3 : r3.outside = false)
+    (h : AgreeStrongBy norm [o1, o2, o3] [(j1, r1), (j2, .err .dup), (j3, r3)]) :
+    j2 = norm (.err .dup) ∧ j3 = norm r3 := by
+  obtain ⟨_, _, k1⟩ := h
+  obtain ⟨_, e2, k2⟩ := k1 (Or.inl h1)
+  obtain ⟨_, e3, _⟩ := k2 (Or.inl rfl)
+  exact ⟨e2 rfl, e3 h3⟩
+
+/-- the weak form (agreement up to the first reference error of any kind) is a corollary -/
 theorem json_refines_ref (fx : Fix) (hfx : fx.jsonUpdFilt = true) (ft : FloatText) (ops : List Op)
     (hops : ∀ op ∈ ops, op ≠ .reload) : Agree (runWith (Json.step fx ft) [] [] ops) :=
-  json_run_agrees fx hfx ft ops [] [] RelJ.init hops
+  AgreeStrong.weaken ops _ (json_refines_ref_strong fx hfx ft ops hops)
 
 /-- one step from any related pair of states (the inductive step of the simulation) -/
 theorem json_step_simulates (fx : Fix) (hfx : fx.jsonUpdFilt = true) (ft : FloatText) (js : JState) (rs : RefState)
@@ -121,8 +154,25 @@ theorem json_step_simulates (fx : Fix) (hfx : fx.jsonUpdFilt = true) (ft : Float
     rr.2 ≠ .err .notFresh ∧ ((∃ e, rr.2 = .err e) ∨ (jr.2 = rr.2 ∧ RelJ jr.1 rr.1)) :=
   json_step_refines fx hfx ft js rs hrel op hop
 
+/-- one step, strong form: unless the reference store rejects the operation as outside the contract
+(`Res.outside`), the answers are equal — the in-contract errors `dup` / `badId` included — and the states stay
+related; a query keeps the states related in every case. -/
+theorem json_step_simulates_strong (fx : Fix) (hfx : fx.jsonUpdFilt = true) (ft : FloatText) (js : JState)
+    (rs : RefState) (hrel : RelJ js rs) (op : Op) (hop : op ≠ .reload) :
+    let jr := Json.step fx ft js op
+    let rr := Ref.step rs (match jr.2 with | .id n => n | _ => []) op
+    rr.2 ≠ .err .notFresh ∧ (rr.2.outside = false → jr.2 = rr.2 ∧ RelJ jr.1 rr.1) ∧
+      (op.isQuery = true → RelJ jr.1 rr.1) :=
+  json_step_refines_strong fx hfx ft js rs hrel op hop
+
+/-- the reference store's errors other than the out-of-contract rejections come from insert only (`dup`, `badId`) -/
+theorem ref_errors_outside_unless_insert (s : RefState) (name : Str) (op : Op) (hop : ∀ c r, op ≠ .insert c r)
+    (e : Err) (h : (Ref.step s name op).2 = .err e) : (Ref.step s name op).2.outside = true :=
+  ref_err_outside s name op hop e h
+
 /-- **Re-opening the JSON file** (a fresh driver instance on the same file) changes nothing: every collection,
-record and value written with `json.dumps` + tagged dates is read back by `json.loads` + the hook, in order. -/
+record and value written with `json.dumps` + tagged dates is read back by `json.loads` + the hook, in order.
+Stated for any well-formed file; `json_reload_identity_reachable` discharges `FileWF` for every reachable state. -/
 theorem json_reload_identity (fx : Fix) (ft : FloatText) (law : FtLaw ft) (js : JState) (h : FileWF ft js) :
     Json.step fx ft js .reload = (js, .unit) :=
   reload_identity fx ft law js h
@@ -135,6 +185,36 @@ example : FileWF demoFt [([99], [([97], [(kId, .str [97]), ([115], .str [34, 92,
   · intro q hq; simp only [List.mem_singleton] at hq; subst hq; simp [dget, kId]
   · intro q hq; simp only [List.mem_singleton] at hq; subst hq
     simp [WF, WFObj, Scalar, noTag, dget, dkeys, kId, kT]
+
+/-- **`FileWF` holds in every reachable state**: starting from the empty store, after any history of operations
+that carry well-formed values (`OpWF`: records and update parts are `WF` dicts, an update part does not name "id",
+replace ids are strings of scalar values; re-opening allowed at any point), the file satisfies the hypothesis of
+`json_reload_identity`. Also after operations that fail or that the reference store rejects (a partial update
+included). -/
+theorem fileWF_run (fx : Fix) (ft : FloatText) (law : FtLaw ft) (ops : List Op) (hops : ∀ op ∈ ops, OpWF ft op) :
+    FileWF ft (runJson fx ft [] ops) :=
+  QtVerif.Store.fileWF_run fx ft law ops hops
+
+/-- **Re-opening the JSON file is the identity in every reachable state** (corollary of `json_reload_identity` and
+`fileWF_run`): no hypothesis on the state is left. -/
+theorem json_reload_identity_reachable (fx : Fix) (ft : FloatText) (law : FtLaw ft) (ops : List Op)
+    (hops : ∀ op ∈ ops, OpWF ft op) :
+    Json.step fx ft (runJson fx ft [] ops) .reload = (runJson fx ft [] ops, .unit) :=
+  reload_identity fx ft law _ (QtVerif.Store.fileWF_run fx ft law ops hops)
+
+/-- one step keeps the file well-formed, from any well-formed file -/
+theorem fileWF_step (fx : Fix) (ft : FloatText) (law : FtLaw ft) (js : JState) (h : FileWF ft js) (op : Op)
+    (hop : OpWF ft op) : FileWF ft (Json.step fx ft js op).1 :=
+  QtVerif.Store.fileWF_step fx ft law js h op hop
+
+/-- `OpWF` is satisfiable by a history with an insert (quote / backslash in a value), an update, a replace, a
+remove, a query and a re-open -/
+example : ∀ op ∈ [Op.insert [99] [(kId, .str [97]), ([115], .str [34, 92, 10])], Op.update [99] [([110], .int 5)] [(kId, .str [97])],
+    Op.replace [99] [97] [([110], .null)], Op.remove [99] [], Op.query [99] none [] [] none, Op.reload], OpWF demoFt op := by
+  intro op hop
+  simp only [List.mem_cons, List.mem_nil_iff, or_false] at hop
+  rcases hop with rfl | rfl | rfl | rfl | rfl | rfl <;>
+    simp [OpWF, WF, WFObj, Scalar, noTag, dget, dkeys, kId, kT]
 
 /-- **Id allocation**: `_find_next_id` never returns an id that is in use. -/
 theorem json_generated_id_fresh (c : JColl) : Json.findNextId c ∉ dkeys c := findNextId_fresh c
@@ -158,6 +238,29 @@ theorem redis_refines_ref (ft : FloatText) (law : FtLaw ft) (ops : List Op)
     (hops : ∀ op ∈ ops, OpOK (WF ft) op) :
     AgreeBy normRes (runWith (Redis.step Fix.repaired ft) [] [] ops) :=
   redis_run_agrees ft (WF ft) (fun v hv => decode_encode ft law v hv) ops [] [] (RelR.init ft (WF ft)) hops
+
+/-- **The Redis driver refines the reference store, strong form** (same hypotheses): the comparison runs through
+the whole history — the errors `DuplicateRecordId` / bad id of insert must be raised by the driver as well and
+change nothing — and stops only at an update / remove that the reference store rejects as outside the contract
+(`AgreeStrongBy`, `Res.outside`). `redis_refines_ref` follows by `AgreeStrongBy.weaken`. -/
+theorem redis_refines_ref_strong (ft : FloatText) (law : FtLaw ft) (ops : List Op)
+    (hops : ∀ op ∈ ops, OpOK (WF ft) op) :
+    AgreeStrongBy normRes ops (runWith (Redis.step Fix.repaired ft) [] [] ops) :=
+  redis_run_agrees_strong ft (WF ft) (fun v hv => decode_encode ft law v hv) ops [] [] (RelR.init ft (WF ft)) hops
+
+/-- the strong form relative to any class of values that survive the per-field codec -/
+theorem redis_refines_ref_strong_under_codec_roundtrip (ft : FloatText) (Good : JVal → Prop)
+    (hrt : ∀ v, Good v → decodeVal ft (encodeVal Fix.repaired ft v) = some v) (ops : List Op)
+    (hops : ∀ op ∈ ops, OpOK Good op) :
+    AgreeStrongBy normRes ops (runWith (Redis.step Fix.repaired ft) [] [] ops) :=
+  redis_run_agrees_strong ft Good hrt ops [] [] (RelR.init ft Good) hops
+
+/-- the weak forms are corollaries of the strong ones -/
+theorem redis_weak_of_strong (ft : FloatText) (Good : JVal → Prop)
+    (hrt : ∀ v, Good v → decodeVal ft (encodeVal Fix.repaired ft v) = some v) (ops : List Op)
+    (hops : ∀ op ∈ ops, OpOK Good op) :
+    AgreeBy normRes (runWith (Redis.step Fix.repaired ft) [] [] ops) :=
+  AgreeStrongBy.weaken normRes ops _ (redis_refines_ref_strong_under_codec_roundtrip ft Good hrt ops hops)
 
 /-- the same, stated relative to any class of values that survive the per-field codec (the refinement uses
 nothing else about the codec) -/
@@ -254,9 +357,73 @@ theorem mongo_loose_id_test_not_injective :
     (Mongo.idToDb Fix.repaired up).map Mongo.idFromDb = some up := by
   decide
 
-/-! ## The Mongo driver: translation to the document engine -/
+/-! ## The Mongo driver: translation to the document engine
 
-/-- **A translated filter selects the same records**: for a record the driver can hold and a filter of the
+Status of this section: **PARTIAL**. The `mongo_*_xlate_sound` theorems below are PER-OPERATION statements from an
+arbitrary related pair of states (`RelM`), modulo the declarative engine SPEC (`Mongo.eFind`, `eMatches`, … — an
+assumption about MongoDB, validated only through mongomock by the correspondence check), restricted to the contract
+domain (`MQueryOK` / `MFiltOK` / `MInsertOK` / `MRecIn`); insert needs a freshness hypothesis on the ObjectId the
+engine generates, and update only bounds the reported count (`m ≤ n`). There is NO run-level refinement theorem
+for Mongo: its statement is `mongoRefinesRefFull` below, which is not proved. -/
+
+/-- the operations of the Mongo contract domain: the hypotheses of the per-operation theorems -/
+def MOpOK : Op → Prop
+  | .insert _ rec => MInsertOK rec
+  | .update _ part filt => MFiltOK filt ∧ Mongo.kUid ∉ dkeys part
+  | .replace _ _ rec => MRecIn rec ∧ kId ∉ dkeys rec
+  | .remove _ filt => MFiltOK filt
+  | .query _ fields filt sort limit => MQueryOK fields filt sort limit
+  | .reload => True
+
+/-- lock-step run of the Mongo driver model over the engine SPEC and the reference store; every operation comes with
+the bytes of the ObjectId the engine would generate for a document inserted without "_id" -/
+def runMongo : Mongo.MState → RefState → List (Op × List Nat) → List (Res × Res)
+  | _, _, [] => []
+  | ms, rs, (op, gen) :: t =>
+    let mr := Mongo.step Fix.repaired ms gen op
+    let rr := Ref.step rs (match mr.2 with | .id n => n | _ => []) op
+    (mr.2, rr.2) :: runMongo mr.1 rr.1 t
+
+/-- The run-level refinement statement for the Mongo driver, in the shape of `redis_refines_ref`: under the engine
+SPEC, for every sequence of operations of the contract domain (each with a well-formed generated ObjectId), the
+results agree with the reference store's (`AgreeBy normRes`).
+
+**NOT PROVED — and not provable as stated** (`mongoRefinesRefFull_false` below refutes it). It is written down only to make explicit what the `mongo_*_xlate_sound`
+theorems do NOT add up to:
+* generated ObjectIds: `mongo_insert_xlate_sound` needs `hfresh` (the generated ObjectId is not the "_id" of a
+  document of the collection). That is a property of the engine's generator relative to the WHOLE history (explicit
+  ids that look like ObjectIds included), which this statement does not assume; without it the engine answers
+  `DuplicateKeyError` where the reference store accepts the insert. A provable variant must carry, for every
+  insert, the freshness of `gen` in the state reached so far;
+* update: the driver reports `modified_count`, the reference store the number of matching records;
+  `mongo_update_xlate_sound` proves only `m ≤ n` (recorded finding C06-mongo-update-modified-count), so `AgreeBy`
+  (equal counts) fails on an update that matches a record without changing it. A provable variant must compare
+  update counts by `≤`;
+* the per-operation theorems would have to be chained by an induction over the history as for JSON / Redis (`RelM`
+  is re-established by each of them; this part is routine and is simply not done). -/
+def mongoRefinesRefFull : Prop :=
+  ∀ hist : List (Op × List Nat), (∀ og ∈ hist, MOpOK og.1 ∧ GenOK og.2) → AgreeBy normRes (runMongo [] [] hist)
+
+/-- `mongoRefinesRefFull` is FALSE as stated (first bullet of its comment): when the engine generates the same
+ObjectId twice, the second insert fails with `DuplicateKeyError` in the driver while the reference store accepts
+it. The freshness of generated ObjectIds is a genuine assumption of `mongo_insert_xlate_sound`, not a technicality. -/
+theorem mongoRefinesRefFull_false : ¬ mongoRefinesRefFull := by
+  intro h
+  have hok : ∀ og ∈ [(Op.insert [99] [], [0,0,0,0,0,0,0,0,0,0,0,0]), (Op.insert [99] [], [0,0,0,0,0,0,0,0,0,0,0,0])],
+      MOpOK og.1 ∧ GenOK og.2 := by
+    intro og hog
+    simp only [List.mem_cons, List.mem_nil_iff, or_false, or_self] at hog
+    subst hog
+    exact ⟨⟨⟨by decide, by decide⟩, Or.inl rfl⟩, by decide, by decide⟩
+  have e : runMongo [] [] [(Op.insert [99] [], [0,0,0,0,0,0,0,0,0,0,0,0]), (Op.insert [99] [], [0,0,0,0,0,0,0,0,0,0,0,0])]
+      = [(.id (Mongo.bytesHex [0,0,0,0,0,0,0,0,0,0,0,0]), .id (Mongo.bytesHex [0,0,0,0,0,0,0,0,0,0,0,0])),
+         (.err .dup, .id [])] := by
+    rfl
+  have := h _ hok
+  rw [e] at this
+  simp [AgreeBy, normRes] at this
+
+/-- **A translated filter selects the same records** (PARTIAL: one record, one filter, modulo the engine SPEC): for a record the driver can hold and a filter of the
 contract (exact values, gt / ge / lt / le / in; on "id": exact value or `in`), whenever Python's filter gives a
 verdict on the record, the engine's evaluation of the translated filter (`id ↦ _id` with mapped operands,
 `$`-operators) on the record's document gives the same verdict. -/
@@ -265,7 +432,8 @@ theorem mongo_filter_xlate_sound (d : Fields) (hd : MRecOK d) (filt : Fields) (h
     Mongo.eMatches (docOf d) ef = b :=
   xlate_matches d hd filt hf ef he b h
 
-/-- **`mongo_xlate_sound`**: for filters / sorts / projections / limits in the contract domain (`MQueryOK`: no
+/-- **`mongo_xlate_sound`** (PARTIAL: per operation from any related pair of states, modulo the engine SPEC, contract
+domain only; no run-level theorem, see `mongoRefinesRefFull`): for filters / sorts / projections / limits in the contract domain (`MQueryOK`: no
 sort by "id", no `limit=0`, no `fields=[]`, no "_id" keys — the recorded engine classes), the translated query run
 on the engine SPEC returns exactly the reference store's records, in the same order, the id last in each. -/
 theorem mongo_xlate_sound (ms : Mongo.MState) (rs : RefState) (hrel : RelM ms rs) (gen : List Nat) (coll : Str)
@@ -289,7 +457,8 @@ example : MQueryOK (some [[110], kId]) [(kId, .obj [(opIn, .arr [.str [97], .str
     exact ⟨rfl, _, rfl⟩
   · intro fs hfs; injection hfs with hfs; subst hfs; decide
 
-/-- remove: same count, and the engine ends in the reference store's state -/
+/-- remove (PARTIAL: per operation, modulo the engine SPEC, `MFiltOK` filters): same count, and the engine ends in
+the reference store's state -/
 theorem mongo_remove_xlate_sound (ms : Mongo.MState) (rs : RefState) (hrel : RelM ms rs) (gen : List Nat) (coll : Str)
     (filt : Fields) (hf : MFiltOK filt) :
     let mr := Mongo.step Fix.repaired ms gen (.remove coll filt)
@@ -297,7 +466,8 @@ theorem mongo_remove_xlate_sound (ms : Mongo.MState) (rs : RefState) (hrel : Rel
     (∃ e, rr.2 = .err e) ∨ (mr.2 = rr.2 ∧ RelM mr.1 rr.1) :=
   mongo_remove_sound ms rs hrel gen coll filt hf
 
-/-- update (`$set`): the engine ends in the reference store's state; the driver reports `modified_count`, never
+/-- update (`$set`) (PARTIAL: per operation, modulo the engine SPEC; the count is only bounded, `m ≤ n`, not
+equal): the engine ends in the reference store's state; the driver reports `modified_count`, never
 more than the reference store's number of matching records (recorded finding C06-mongo-update-modified-count) -/
 theorem mongo_update_xlate_sound (ms : Mongo.MState) (rs : RefState) (hrel : RelM ms rs) (gen : List Nat) (coll : Str)
     (part filt : Fields) (hf : MFiltOK filt) (hu : Mongo.kUid ∉ dkeys part) :
@@ -306,7 +476,8 @@ theorem mongo_update_xlate_sound (ms : Mongo.MState) (rs : RefState) (hrel : Rel
     (∃ e, rr.2 = .err e) ∨ ((∃ m n, mr.2 = .count m ∧ rr.2 = .count n ∧ m ≤ n) ∧ RelM mr.1 rr.1) :=
   mongo_update_sound ms rs hrel gen coll part filt hf hu
 
-/-- replace: same flag, same state -/
+/-- replace (PARTIAL: per operation, modulo the engine SPEC, records without "id" / "_id" keys): same flag, same
+state -/
 theorem mongo_replace_xlate_sound (ms : Mongo.MState) (rs : RefState) (hrel : RelM ms rs) (gen : List Nat) (coll id : Str)
     (rec : Fields) (hr : MRecIn rec) (hnoid : kId ∉ dkeys rec) :
     let mr := Mongo.step Fix.repaired ms gen (.replace coll id rec)
@@ -314,7 +485,8 @@ theorem mongo_replace_xlate_sound (ms : Mongo.MState) (rs : RefState) (hrel : Re
     mr.2 = rr.2 ∧ RelM mr.1 rr.1 :=
   mongo_replace_sound ms rs hrel gen coll id rec hr hnoid
 
-/-- insert: explicit ids come back as given (duplicates are refused on both sides); a document without "_id" gets
+/-- insert (PARTIAL: per operation, modulo the engine SPEC, under the freshness HYPOTHESIS `hfresh` on the generated
+ObjectId, which no theorem here discharges along a history): explicit ids come back as given (duplicates are refused on both sides); a document without "_id" gets
 the ObjectId `gen` the engine generates — assumed not to be in use (`hfresh`) — and the reference store accepts
 its hex text as a free name; same state afterwards. -/
 theorem mongo_insert_xlate_sound (ms : Mongo.MState) (rs : RefState) (hrel : RelM ms rs) (gen : List Nat) (coll : Str)
